@@ -118,7 +118,7 @@ class _Loader(importlib.abc.Loader):
                 if procedure.startswith('NONE'):
                     return ''
                 return json.dumps(['fixture description of ' + procedure])
-            if beh in ('raise', 'importerror', 'keyerror'):
+            if beh in ('raise', 'importerror', 'keyerror', 'nan', 'overflow', 'deep', 'hugeint'):
                 return respond(name, beh, b'')
             if beh in ('none', 'empty'):
                 return ''
